@@ -25,49 +25,7 @@ def ref_parse(bs):
     return out + [0] * (4 - len(out))
 
 
-def run(chk):
-    nbytes = 8 if chk.tier == 'quick' else 11
-    chk.bounds['version string bytes'] = '0..=%d, every byte value 0..=127' % nbytes
-    # ---- K: ordering / From for all u32^4
-    names = ['version_order_is_lexicographic', 'version_from_arrays_zero_fills']
-    res, wall, out = kanirun.run_harnesses(names)
-    for n, desc in zip(names, ('ordering and equality are numeric, component-wise, left to right, for all u32^4 pairs (Kani/CBMC over the compiled code)',
-                               'conversion from 1-4 element arrays zero-fills and is injective on 4-arrays (Kani/CBMC)')):
-        o = chk.ob('kani:' + n, desc)
-        r = res[n]
-        o.wall_s = r['time_s'] or wall
-        if r['status'] == 'success':
-            o.status = 'holds'
-            o.detail = 'VERIFICATION SUCCESSFUL, covers %s, unwind 18 with unwinding assertions' % (r['covers'],)
-        elif r['status'] == 'failed':
-            o.status = 'violated'
-            o.detail = 'Kani: ' + r['detail']
-            o.key = n
-            o.cex = {'kani_failed_checks': r['detail']}
-        else:
-            o.status = 'inconclusive'
-            o.detail = r['detail'][:300]
-    chk.extra['kani'] = dict((n, res[n]) for n in names)
-    chk.stats['queries'] += len(names)
-    chk.functions['kani harnesses (kani/src/lib.rs)'] = {'harnesses': names}
-    # ---- M: from_str on all byte strings up to the bound
-    ex = make_sm_executor(chk, dict(unroll=nbytes + 3, max_paths=400000), cuts=())
-    o = chk.ob('parser-equals-grammar', 'Version::from_str(s) == Ok(parts zero-filled) iff s is 1-4 dot-separated [+]digits parts each <= u32::MAX, else Err; no panic; for every ASCII string within the bound')
-    D = Decide(chk, ex, o, cross=False)
-    fn = find_method(ex, '<Version as FromStr>::from_str')
-    st0 = State()
-    ln = z3.Int('s.len')
-    ex.axioms['s.len'] = z3.And(ln >= 0, ln <= nbytes)
-    bs = []
-    for i in range(nbytes):
-        b = z3.Int('s.b%d' % i)
-        ex.axioms['s.b%d' % i] = z3.And(b >= 0, b <= 127)
-        bs.append(b)
-    s_in = Obj('bstr', (ln, tuple(bs)))
-    res = ex.run_fn(fn, [s_in], st0)
-    D.no_bad_status(res)
-    nok = nerr = 0
-    bin_dev = common.build_replay('dev')
+def check_paths(chk, ex, D, o, res, bs, bin_dev):
     for st in res:
         if st.status != 'done' or 'split' not in st.extra:
             continue
@@ -113,14 +71,70 @@ def run(chk):
             ref = ref_parse(bytes_)
             o.cex = {'bytes': bytes_, 'text': bytes(bytes_).decode('latin-1'), 'reference': ref}
             o.replayed = rep
-            o.key = 'parser-equals-grammar'
+            o.key = o.name
             real_ok = rep.get('ok')
             if (ref is None) == (not real_ok):
                 # the real code agrees with the reference on acceptance; compare the value through printing
                 if ref is None or rep.get('printed') == '.'.join(str(x) for x in ref):
                     D.failed = ('inconclusive', 'model did not reproduce natively: %r' % rep, None, st)
-    chk.extra['from_str_paths'] = len(res)
-    f = D.done()
+
+
+def run(chk):
+    nbytes = 8 if chk.tier == 'quick' else 11
+    chk.bounds['version string bytes'] = '0..=%d, every byte value 0..=127' % nbytes
+    # ---- K: ordering / From for all u32^4
+    names = ['version_order_is_lexicographic', 'version_from_arrays_zero_fills']
+    res, wall, out = kanirun.run_harnesses(names)
+    for n, desc in zip(names, ('ordering and equality are numeric, component-wise, left to right, for all u32^4 pairs (Kani/CBMC over the compiled code)',
+                               'conversion from 1-4 element arrays zero-fills and is injective on 4-arrays (Kani/CBMC)')):
+        o = chk.ob('kani:' + n, desc)
+        r = res[n]
+        o.wall_s = r['time_s'] or wall
+        if r['status'] == 'success':
+            o.status = 'holds'
+            o.detail = 'VERIFICATION SUCCESSFUL, covers %s, unwind 18 with unwinding assertions' % (r['covers'],)
+        elif r['status'] == 'failed':
+            o.status = 'violated'
+            o.detail = 'Kani: ' + r['detail']
+            o.key = n
+            o.cex = {'kani_failed_checks': r['detail']}
+        else:
+            o.status = 'inconclusive'
+            o.detail = r['detail'][:300]
+    chk.extra['kani'] = dict((n, res[n]) for n in names)
+    chk.stats['queries'] += len(names)
+    chk.functions['kani harnesses (kani/src/lib.rs)'] = {'harnesses': names}
+    # ---- M: from_str on all byte strings up to the bound, and on all dot-free strings up to 21 bytes (the
+    # overflow boundary of every integer width up to u64 lies inside: 2^32 has 10 digits, 2^64 has 20)
+    ex = make_sm_executor(chk, dict(unroll=24, max_paths=400000), cuts=())
+    fn = find_method(ex, '<Version as FromStr>::from_str')
+    bin_dev = common.build_replay('dev')
+    wide = 21
+    chk.bounds['dot-free version string bytes'] = '0..=%d, every byte value 0..=127 except "."' % wide
+    npaths = 0
+    for oname, desc, nb, nodots in (
+            ('parser-equals-grammar', 'Version::from_str(s) == Ok(parts zero-filled) iff s is 1-4 dot-separated [+]digits parts each <= u32::MAX, else Err; no panic; for every ASCII string within the bound', nbytes, False),
+            ('parser-overflow-boundary', 'the same equivalence for every dot-free ASCII string of up to %d bytes: a single number is accepted iff it is [+]digits and <= u32::MAX (leading zeros allowed), whatever its length' % wide, wide, True)):
+        o = chk.ob(oname, desc)
+        D = Decide(chk, ex, o, cross=False)
+        st0 = State()
+        pre = 's.' if not nodots else 'w.'
+        ln = z3.Int(pre + 'len')
+        ex.axioms[pre + 'len'] = z3.And(ln >= 0, ln <= nb)
+        bs = []
+        for i in range(nb):
+            b = z3.Int(pre + 'b%d' % i)
+            ex.axioms[pre + 'b%d' % i] = z3.And(b >= 0, b <= 127)
+            bs.append(b)
+            if nodots:
+                st0.pc.append(b != 46)
+        s_in = Obj('bstr', (ln, tuple(bs)))
+        res = ex.run_fn(fn, [s_in], st0)
+        npaths += len(res)
+        D.no_bad_status(res)
+        check_paths(chk, ex, D, o, res, bs, bin_dev)
+        D.done()
+    chk.extra['from_str_paths'] = npaths
     # validate the encoding on concrete strings (repo test inputs and boundary cases) through the real code
     tests = ['1.2.3.4', '1.2.3', '1.2', '1', '3.2.1', '.', '', '1.2.3.4.5', '1.2.3.', '.1', 'a', '+1.2', '-1', '1..2', '4294967295', '4294967296', '01.002', ' 1', '1 ']
     bad = []
